@@ -2215,6 +2215,28 @@ func (te *TemplateEngine) replaceVariablesInParagraph(para *Paragraph, data *Tem
 	isNonTextRun := func(run *Run) bool {
 		return run.Text.Content == "" && (run.Break != nil || run.Drawing != nil || run.FieldChar != nil || run.InstrText != nil)
 	}
+	// 既带文本又带分页符/换行符、图片或域的Run：序列化时文本在前、其余内容在后，所以先把它拆成
+	// “文本Run + 不带文本的Run”（格式相同）。否则替换变量时每个文本片段都是整个Run的拷贝，
+	// 一个换行符会变成好几个
+	for i := range para.Runs {
+		run := &para.Runs[i]
+		if run.Text.Content != "" && (run.Break != nil || run.Drawing != nil || run.FieldChar != nil || run.InstrText != nil) {
+			expanded := make([]Run, 0, len(para.Runs)+1)
+			for j := range para.Runs {
+				r := para.Runs[j]
+				if r.Text.Content != "" && (r.Break != nil || r.Drawing != nil || r.FieldChar != nil || r.InstrText != nil) {
+					textRun := Run{Properties: te.cloneRunProperties(r.Properties), Text: r.Text}
+					r.Text = Text{}
+					expanded = append(expanded, textRun, r)
+					continue
+				}
+				expanded = append(expanded, r)
+			}
+			para.Runs = expanded
+			break
+		}
+	}
+
 	hasNonTextRun := false
 	for i := range para.Runs {
 		if isNonTextRun(&para.Runs[i]) {
